@@ -105,7 +105,7 @@ def main():
         json.dump({
             "seed": seed,
             "property": seed[:3],
-            "round": 4 if "-r4" in seed else (3 if "-r3" in seed else (2 if "-r2" in seed else 1)),
+            "round": 5 if "-r5" in seed else 4 if "-r4" in seed else (3 if "-r3" in seed else (2 if "-r2" in seed else 1)),
             "summary": meta.get("summary", ""),
             "needs_to_manifest": meta.get("needs", ""),
             "files": meta.get("files", []),
